@@ -16,7 +16,10 @@ Proof. exact sorenson_roundtrip. Qed.
    freeze-release flags, source format 1..6, coding type, UMV / SAC / AP / PB flags, PQUANT, CPM with PSBI,
    TRB and DBQUANT (PB frames) and PEI bytes. *)
 Theorem C06_baseline_roundtrip : forall h prev scal rest pos,
-  wf_std h -> prev_compatible prev (Some (std_format (t_srcfmt h))) -> scal = false ->
+  wf_std h ->
+  (t_pb h = false /\ t_inter h = false) \/              (* an INTRA picture may change the format; otherwise ... *)
+  prev_compatible prev (Some (std_format (t_srcfmt h))) ->   (* ... the previous header, if any, transmitted the same one *)
+  scal = false ->
   exists pos', decode_picture (mkOpts false scal) prev (mkReader (enc_std h ++ rest) pos)
                = Ok (Some (picture_of_std h), mkReader rest pos').
 Proof. exact std_roundtrip. Qed.
@@ -27,7 +30,7 @@ Proof. exact std_roundtrip. Qed.
    PAR code, PWI, PHI and extended PAR, CPCFC/ETR, UUI ('1' and '01'), SSS, ELNUM/RLNUM when scalability is
    enabled, RPSMF, TRPI/TRP, BCI '01', PQUANT, TRB (3 or 5 bits) / DBQUANT and PEI bytes. *)
 Theorem C06_plus_roundtrip : forall h prev scal rest pos,
-  wf_plus h -> prev_compatible prev (plus_format h) ->
+  wf_plus h -> p_type h = 0 \/ prev_compatible prev (plus_format h) ->     (* INTRA, or no format change *)
   exists pos', decode_picture (mkOpts false scal) prev (mkReader (enc_plus scal h ++ rest) pos)
                = Ok (Some (picture_of_plus scal h), mkReader rest pos').
 Proof. exact plus_roundtrip. Qed.
